@@ -18,7 +18,7 @@ Definition dsl_is_str (v : dsl_val) : bool := match v with DvStr _ => true | _ =
 Definition dsl_is_arr (v : dsl_val) : bool := match v with DvArr _ => true | _ => false end.
 Definition dsl_is_dict (v : dsl_val) : bool := match v with DvDict _ => true | _ => false end.
 Definition dsl_is_obj (v : dsl_val) : bool :=
-  match v with DvArr _ | DvDict _ | DvNs _ | DvFun _ | DvNat _ | DvSys => true | _ => false end.
+  match v with DvArr _ | DvDict _ | DvNs _ | DvFun _ | DvNat _ | DvSys | DvType _ | DvRef _ | DvJson | DvTypes => true | _ => false end.
 
 (* Value::ToBool *)
 Definition dsl_to_bool (st : dsl_store) (v : dsl_val) : bool :=
@@ -59,6 +59,20 @@ Definition dsl_to_double (st : dsl_store) (v : dsl_val) : dsl_pres :=
 
 Inductive dsl_sres := SrOk (s : string) | SrErr (k : dsl_errkind) | SrAbort (a : dsl_abort).
 
+Definition dsl_type_name (t : dsl_type) : string :=
+  match t with
+  | DtObject => "Object" | DtNumber => "Number" | DtBoolean => "Boolean" | DtString => "String" | DtArray => "Array"
+  | DtDictionary => "Dictionary" | DtNamespace => "Namespace" | DtFunction => "Function" | DtType => "Type"
+  | DtReference => "Reference"
+  end.
+
+(* Type::GetBaseType: the scalar types and Object have none *)
+Definition dsl_type_base (t : dsl_type) : option dsl_type :=
+  match t with
+  | DtObject | DtNumber | DtBoolean | DtString => None
+  | _ => Some DtObject
+  end.
+
 (* Value::operator String.  Containers: Array::ToString/Dictionary::ToString walk the structure
    (unbounded recursion on a cyclic one); their output format is not modelled. *)
 Definition dsl_to_string (st : dsl_store) (v : dsl_val) : dsl_sres :=
@@ -68,7 +82,10 @@ Definition dsl_to_string (st : dsl_store) (v : dsl_val) : dsl_sres :=
   | DvBool b => SrOk (if b then "true" else "false")
   | DvStr s => SrOk s
   | DvArr _ | DvDict _ => if dsl_cyclic st v then SrAbort DaCycle else SrAbort DaDomain
-  | _ => SrAbort DaDomain
+  | DvType t => SrOk ("type '" ++ dsl_type_name t ++ "'")           (* Type::ToString *)
+  | DvRef _ => SrOk "Object of type 'Reference'"                    (* Object::ToString *)
+  | DvFun _ | DvNat _ => SrOk "Object of type 'Function'"
+  | DvNs _ | DvSys | DvJson | DvTypes => SrOk "Object of type 'Namespace'"
   end.
 
 (* ------------------------------------------------------------------ == *)
@@ -83,6 +100,10 @@ Definition dsl_ident_eq (a b : dsl_val) : bool :=
   | DvArr l1, DvArr l2 | DvDict l1, DvDict l2 | DvNs l1, DvNs l2 | DvFun l1, DvFun l2 => Nat.eqb l1 l2
   | DvNat n1, DvNat n2 => dsl_native_eqb n1 n2
   | DvSys, DvSys => true
+  | DvType t1, DvType t2 => dsl_type_eqb t1 t2
+  | DvRef l1, DvRef l2 => Nat.eqb l1 l2
+  | DvJson, DvJson => true
+  | DvTypes, DvTypes => true
   | _, _ => false
   end.
 
@@ -413,6 +434,39 @@ Definition dsl_sys (f : string) : option dsl_native :=
   else if String.eqb f "range" then Some DnRange else if String.eqb f "string" then Some DnString
   else if String.eqb f "number" then Some DnNumber else if String.eqb f "bool" then Some DnBool else None.
 
+(* the System namespace as seen through the import list: functions, the match-mode constants and System.Json *)
+Definition dsl_sysval (f : string) : option dsl_val :=
+  match dsl_sys f with
+  | Some n => Some (DvNat n)
+  | None =>
+      if String.eqb f "typeof" then Some (DvNat DnTypeOf) else if String.eqb f "union" then Some (DvNat DnUnion)
+      else if String.eqb f "intersection" then Some (DvNat DnIntersection) else if String.eqb f "match" then Some (DvNat DnMatch)
+      else if String.eqb f "MatchAll" then Some (DvNum 0 0) else if String.eqb f "MatchAny" then Some (DvNum 1 0)
+      else if String.eqb f "Json" then Some DvJson else None
+  end.
+
+(* the primitive members of the Types namespace (the import consulted after System and System.Configuration) *)
+Definition dsl_types (f : string) : option dsl_type :=
+  if String.eqb f "Object" then Some DtObject else if String.eqb f "Number" then Some DtNumber
+  else if String.eqb f "Boolean" then Some DtBoolean else if String.eqb f "String" then Some DtString
+  else if String.eqb f "Array" then Some DtArray else if String.eqb f "Dictionary" then Some DtDictionary
+  else if String.eqb f "Namespace" then Some DtNamespace else if String.eqb f "Function" then Some DtFunction
+  else if String.eqb f "Type" then Some DtType else if String.eqb f "Reference" then Some DtReference else None.
+
+Definition dsl_proto_ns (f : string) : option dsl_native :=
+  if String.eqb f "set" then Some DnNsSet else if String.eqb f "get" then Some DnNsGet
+  else if String.eqb f "remove" then Some DnNsRemove else if String.eqb f "contains" then Some DnNsContains
+  else if String.eqb f "keys" then Some DnNsKeys else if String.eqb f "values" then Some DnNsValues
+  else dsl_proto_object f.
+
+Definition dsl_proto_ref (f : string) : option dsl_native :=
+  if String.eqb f "set" then Some DnRefSet else if String.eqb f "get" then Some DnRefGet else dsl_proto_object f.
+
+(* Object#clone / Object#notify_attribute / Type#register_attribute_handler exist but are not modelled *)
+Definition dsl_unmodelled_method (f : string) : bool :=
+  String.eqb f "clone" || String.eqb f "notify_attribute" || String.eqb f "register_attribute_handler"
+  || String.eqb f "freeze" || String.eqb f "call" || String.eqb f "callv".
+
 Definition dsl_opt_native (o : option dsl_native) (missing : dsl_pres) : dsl_pres :=
   match o with Some n => PrVal (DvNat n) | None => missing end.
 
@@ -429,7 +483,9 @@ Definition dsl_getfield (st : dsl_store) (ctx : dsl_val) (field : string) : dsl_
           if 2147483647 <? Z.abs i then PrAbort DaDomain    (* long -> int truncation *)
           else if (i <? 0) || (Z.of_nat (List.length (dsl_arr st l)) <=? i) then PrErr DkRange
           else PrVal (nth (Z.to_nat i) (dsl_arr st l) DvEmpty)
-      | None => dsl_opt_native (dsl_proto_array field) (PrErr DkName)
+      | None => if String.eqb field "type" then PrVal (DvStr "Array")          (* Object's reflection field 0 *)
+                else if dsl_unmodelled_method field then PrAbort DaDomain
+                else dsl_opt_native (dsl_proto_array field) (PrErr DkName)
       end
   | DvDict l =>
       match dsl_dget field (dsl_kv st l) with
@@ -439,9 +495,25 @@ Definition dsl_getfield (st : dsl_store) (ctx : dsl_val) (field : string) : dsl_
   | DvNs l =>
       match dsl_dget field (dsl_kv st l) with
       | Some v => PrVal v
-      | None => PrVal DvEmpty       (* the Namespace prototype's own methods are not modelled; generated names avoid them *)
+      | None => if dsl_unmodelled_method field then PrAbort DaDomain
+                else dsl_opt_native (dsl_proto_ns field) (PrVal DvEmpty)   (* a missing field of a namespace is not an error *)
       end
-  | DvSys => dsl_opt_native (dsl_sys field) (PrVal DvEmpty)
+  | DvSys => match dsl_sysval field with Some v => PrVal v | None => PrAbort DaDomain end   (* the rest of System is not modelled *)
+  | DvJson => if String.eqb field "encode" then PrVal (DvNat DnJsonEncode)
+              else if String.eqb field "decode" then PrVal (DvNat DnJsonDecode)
+              else if dsl_unmodelled_method field then PrAbort DaDomain
+              else dsl_opt_native (dsl_proto_ns field) (PrVal DvEmpty)
+  | DvTypes => match dsl_types field with Some t => PrVal (DvType t) | None => PrAbort DaDomain end
+  | DvType t =>
+      if String.eqb field "name" then PrVal (DvStr (dsl_type_name t))
+      else if String.eqb field "base" then PrVal (match dsl_type_base t with Some b => DvType b | None => DvEmpty end)
+      else if String.eqb field "type" then PrVal (DvStr "Type")
+      else if String.eqb field "prototype" || dsl_unmodelled_method field then PrAbort DaDomain
+      else dsl_opt_native (dsl_proto_object field) (PrErr DkName)
+  | DvRef _ =>
+      if String.eqb field "type" then PrVal (DvStr "Reference")
+      else if dsl_unmodelled_method field then PrAbort DaDomain
+      else dsl_opt_native (dsl_proto_ref field) (PrErr DkName)
   | DvFun _ | DvNat _ => PrAbort DaDomain   (* reflection fields of Function objects: not modelled *)
   end.
 
@@ -452,6 +524,27 @@ Fixpoint dsl_lset (xs : list dsl_val) (i : nat) (v : dsl_val) : list dsl_val :=
   | [], _ => []
   | _ :: t, O => v :: t
   | x :: t, S i' => x :: dsl_lset t i' v
+  end.
+
+(* Namespace::Set(field, value, isConst) *)
+Definition dsl_ns_set (st : dsl_store) (l : nat) (field : string) (v : dsl_val) (isconst : bool) : dsl_pres * dsl_store :=
+  match dsl_sget st l with
+  | Some (DoNs allc cst kv) =>
+      if dsl_dhas field kv then
+        if existsb (String.eqb field) cst then (PrErr DkType, st)        (* "Constant must not be modified." *)
+        else (PrVal DvEmpty, dsl_sset st l (DoNs allc cst (dsl_dset field v kv)))
+      else (PrVal DvEmpty, dsl_sset st l (DoNs allc (if isconst || allc then field :: cst else cst) (dsl_dset field v kv)))
+  | _ => (PrErr DkType, st)
+  end.
+
+(* Namespace::Remove *)
+Definition dsl_ns_remove (st : dsl_store) (l : nat) (field : string) : dsl_pres * dsl_store :=
+  match dsl_sget st l with
+  | Some (DoNs allc cst kv) =>
+      if negb (dsl_dhas field kv) then (PrVal DvEmpty, st)
+      else if existsb (String.eqb field) cst then (PrErr DkType, st)     (* "Constants must not be removed." *)
+      else (PrVal DvEmpty, dsl_sset st l (DoNs allc cst (dsl_dremove field kv)))
+  | _ => (PrErr DkType, st)
   end.
 
 (* VMOps::SetField *)
@@ -467,9 +560,12 @@ Definition dsl_setfield (st : dsl_store) (ctx : dsl_val) (field : string) (v : d
             let xs := dsl_pad (dsl_arr st l) (S (Z.to_nat i)) in
             (PrVal DvEmpty, dsl_sset st l (DoArr (dsl_lset xs (Z.to_nat i) v)))
       end
-  | DvDict l | DvNs l => (PrVal DvEmpty, dsl_kv_put st l (dsl_dset field v (dsl_kv st l)))
+  | DvDict l => (PrVal DvEmpty, dsl_kv_put st l (dsl_dset field v (dsl_kv st l)))
+  | DvNs l => dsl_ns_set st l field v false
   | DvEmpty | DvNum _ _ | DvBool _ | DvStr _ => (PrErr DkType, st)
-  | DvSys => (PrErr DkType, st)                    (* frozen namespace *)
+  | DvSys | DvJson => (PrErr DkType, st)           (* frozen namespaces *)
+  | DvTypes => (PrAbort DaDomain, st)
+  | DvType _ | DvRef _ => (PrAbort DaDomain, st)   (* Object::SetFieldByName on reflection fields: not modelled *)
   | DvFun _ | DvNat _ => (PrAbort DaDomain, st)
   end.
 
@@ -477,6 +573,10 @@ Definition dsl_setfield (st : dsl_store) (ctx : dsl_val) (field : string) (v : d
 Definition dsl_has_own (st : dsl_store) (ctx : dsl_val) (field : string) : bool :=
   match ctx with
   | DvDict l | DvNs l => dsl_dhas field (dsl_kv st l)
-  | DvSys => match dsl_sys field with Some _ => true | None => false end
+  | DvSys => match dsl_sysval field with Some _ => true | None => false end
+  | DvJson => String.eqb field "encode" || String.eqb field "decode"
+  | DvTypes => match dsl_types field with Some _ => true | None => false end
+  | DvType _ => String.eqb field "name" || String.eqb field "base" || String.eqb field "prototype" || String.eqb field "type"
+  | DvArr _ | DvRef _ | DvFun _ | DvNat _ => String.eqb field "type"   (* Object::HasOwnField: the reflection fields (Function has more: not modelled) *)
   | _ => false
   end.
